@@ -471,9 +471,26 @@ def finish(out, level_note=''):
 
 # --------------------------------------------------------------------------- correspondence engine
 
-def eval_cases(comp, cases, impl_fn, max_keep=50):
+def fresh_eval(impl_fn, cases):
+    """the implementation's answers to the cases from a process of its own, started for the purpose (None when that cannot be arranged)"""
+    mod, name = getattr(impl_fn, '__module__', None), getattr(impl_fn, '__qualname__', '<')
+    if not mod or '<' in name:
+        return None
+    code = ('import sys, json, importlib; sys.path.insert(0, %r); f = getattr(importlib.import_module(%r), %r); '
+            'print(json.dumps([f(c)[0] for c in json.load(sys.stdin)]))' % (os.path.join(VERIF, 'harness'), mod, name))
+    try:
+        r = subprocess.run([sys.executable, '-B', '-c', code], input=json.dumps(cases), capture_output=True, text=True, timeout=900,
+                           cwd=os.path.join(VERIF, 'harness'))
+        return json.loads(r.stdout) if r.returncode == 0 else None
+    except Exception:  # noqa: BLE001
+        return None
+
+
+def eval_cases(comp, cases, impl_fn, max_keep=50, repeat=0, fresh=False):
     """Run impl_fn(case) -> (impl_out_ints, failure_or_None, tag) on every case, the extracted model on the
-    same cases, and compare.  failure = (key, description).  Returns a mergeable record."""
+    same cases, and compare.  failure = (key, description).  Returns a mergeable record.
+    repeat > 0: that many of the cases (spread over the list) are evaluated a second time at the end, in reverse order - what a case gives
+    must not depend on what the process did before (memos keyed on too little, shared buffers, state left behind by a call that raised)."""
     rec = {'n': 0, 'dis': [], 'fail': [], 'dist': {}, 'hashes': set(), 'ndis': 0, 'nfail': 0}
     impl_outs = []
     for case in cases:
@@ -486,6 +503,28 @@ def eval_cases(comp, cases, impl_fn, max_keep=50):
                 rec['fail'].append((fail[0], fail[1], {'component': comp, 'case': case}))
         if any(x != 0 for x in case[1:]):
             rec['hashes'].add(hash(tuple(case)))
+    if repeat and cases:
+        step = max(1, len(cases) // repeat)
+        for i in reversed(range(0, len(cases), step)):
+            io2, _, _ = impl_fn(cases[i])
+            rec['dist']['evaluated-again'] = rec['dist'].get('evaluated-again', 0) + 1
+            if io2 != impl_outs[i]:
+                rec['nfail'] += 1
+                if len(rec['fail']) < max_keep:
+                    rec['fail'].append(('history-dependent', 'the case %r gave %r when it was evaluated first and %r when evaluated again after other calls in the same process'
+                                        % (cases[i][:60], impl_outs[i][:40], io2[:40]), {'component': comp, 'case': cases[i]}))
+        if fresh:
+            # ... nor on which process is asked: the same cases, the other way round, in a process started for the purpose
+            idx = list(reversed(range(0, len(cases), step)))
+            outs = fresh_eval(impl_fn, [cases[i] for i in idx])
+            if outs is not None:
+                rec['dist']['evaluated-in-a-fresh-process'] = rec['dist'].get('evaluated-in-a-fresh-process', 0) + len(idx)
+                for i, o in zip(idx, outs):
+                    if o != impl_outs[i]:
+                        rec['nfail'] += 1
+                        if len(rec['fail']) < max_keep:
+                            rec['fail'].append(('history-dependent', 'the case %r gave %r in this run and %r in a process started afresh (same code, another history of calls)'
+                                                % (cases[i][:60], impl_outs[i][:40], o[:40]), {'component': comp, 'case': cases[i]}))
     model_outs = model_run([(comp, c) for c in cases])
     for case, io, mo in zip(cases, impl_outs, model_outs):
         if io != mo:
@@ -493,7 +532,24 @@ def eval_cases(comp, cases, impl_fn, max_keep=50):
             if len(rec['dis']) < max_keep:
                 rec['dis'].append((comp, case, io, mo))
     rec['n'] = len(cases)
+    if rec['dis'] and not rec['fail']:
+        history_search(rec, impl_fn, [(case, io) for (_, case, io, _) in rec['dis'][:4]], max_keep)
     return rec
+
+
+def history_search(rec, impl_fn, pairs, max_keep=50, comp=None):
+    """Model and implementation disagree and no input has been found yet on which the statement fails. One place to look: the implementation
+    may have answered differently because of what it was asked BEFORE. Each disagreeing case is put to a process of its own, started
+    for the purpose, as its first and only question; where that process sides with the model, the case is an input on which the
+    implementation's answer depends on the history of the process - which no statement over 'every input' survives."""
+    for case, io in pairs:
+        fresh = fresh_eval(impl_fn, [case])
+        rec['dist']['disagreements-asked-of-a-fresh-process'] = rec['dist'].get('disagreements-asked-of-a-fresh-process', 0) + 1
+        if fresh is not None and fresh[0] != io:
+            rec['nfail'] += 1
+            if len(rec['fail']) < max_keep:
+                rec['fail'].append(('history-dependent', 'the input %r is answered %r as the first question to a fresh process and %r later in a process that had answered others before it'
+                                    % (case[:60], fresh[0][:40], io[:40]), {'component': comp, 'case': case, 'fresh_process_answer': fresh[0], 'answer_in_this_run': io}))
 
 
 def merge_into(out, rec, component):
